@@ -64,7 +64,10 @@ SPECS["C11"] = dict(
                  "regexp entries are lower-case patterns (the property does not define case folding of patterns)"],
     parts=[dict(name="matcher", pkg="internal/domain_matcher", run="TestVerifC11",
                 files={"harness/C11/zz_verif_c11_test.go": "internal/domain_matcher/zz_verif_c11_test.go"},
-                params={"quick": {"MAXLEN": 3, "VARIANTS": 2}, "thorough": {"MAXLEN": 5, "VARIANTS": 2}})],
+                params={"quick": {"MAXLEN": 3, "VARIANTS": 2, "MAXLINE": 9000}, "thorough": {"MAXLEN": 5, "VARIANTS": 2, "MAXLINE": 60000}}),
+           dict(name="concurrent-match", pkg="internal/domain_matcher", run="TestVerifC11Concurrent", race=True, shards=1, gomaxprocs=4,
+                files={"harness/C11/zz_verif_c11_test.go": "internal/domain_matcher/zz_verif_c11_test.go"},
+                params={"quick": {"ROUNDS": 200}, "thorough": {"ROUNDS": 5000}})],
 )
 
 
@@ -146,7 +149,10 @@ SPECS["C05"] = dict(
            dict(name="idtable-e2", pkg="internal/upstream/transport", run="TestVerifC05E2", go="go", engines=E2ENGINES,
                 files={"harness/transport/zz_verif_c05e2_test.go": "internal/upstream/transport/zz_verif_c05e2_test.go"},
                 generate=rewrite_imports("internal/upstream/transport/pipeline_conn.go", {"sync": ("sync", "vsync")}),
-                params={"quick": {"PREEMPTIONS": 2}, "thorough": {"PREEMPTIONS": 4}}, budget={"quick": 60, "thorough": 600})],
+                params={"quick": {"PREEMPTIONS": 2}, "thorough": {"PREEMPTIONS": 4}}, budget={"quick": 60, "thorough": 600}),
+           dict(name="udp-fallback", pkg="internal/upstream", run="TestVerifC16", go="go1.26", env=E3ENV, gomaxprocs=1, engines=E3ENGINES, shards=4,
+                files=dict(UPSTREAM_COMMON, **{"harness/upstream/zz_verif_c16_test.go": "internal/upstream/zz_verif_c16_test.go"}),
+                budget={"quick": 60, "thorough": 300})],
 )
 
 SPECS["C06"] = dict(
@@ -163,7 +169,10 @@ SPECS["C06"] = dict(
     parts=[dict(name="reuse", pkg="internal/upstream/transport", run="TestVerifC06", go="go1.26", env=E3ENV, gomaxprocs=1, engines=E3ENGINES,
                 files=dict(TRANSPORT_COMMON, **{"harness/transport/zz_verif_c06_test.go": "internal/upstream/transport/zz_verif_c06_test.go"}),
                 params={"quick": {"DEPTH": 6, "FAULTS": 2}, "thorough": {"DEPTH": 9, "FAULTS": 3}},
-                budget={"quick": 60, "thorough": 600})],
+                budget={"quick": 60, "thorough": 600}),
+           dict(name="udp-fallback", pkg="internal/upstream", run="TestVerifC16", go="go1.26", env=E3ENV, gomaxprocs=1, engines=E3ENGINES, shards=4,
+                files=dict(UPSTREAM_COMMON, **{"harness/upstream/zz_verif_c16_test.go": "internal/upstream/zz_verif_c16_test.go"}),
+                budget={"quick": 60, "thorough": 300})],
 )
 
 SPECS["C14"] = dict(
@@ -254,7 +263,10 @@ SPECS["C10"] = dict(
     assumptions=["'reverse' on a rule without a domain condition has no effect (the condition 'always holds')", "a rule with both reject and forward is a reject rule"],
     parts=[router_part("rules", "TestVerifC10", ["zz_verif_c10_test.go"], params={"quick": {"MAXLEN": 2}, "thorough": {"MAXLEN": 3}}),
            dict(name="config", pkg="app/router", run="TestVerifC10Config", go="go", engines=("choice", "report"), shards=1,
-                files={"harness/router/zz_verif_c10cfg_test.go": "app/router/zz_verif_c10cfg_test.go"}, budget={"quick": 120, "thorough": 120})],
+                files={"harness/router/zz_verif_c10cfg_test.go": "app/router/zz_verif_c10cfg_test.go"}, budget={"quick": 120, "thorough": 120}),
+           dict(name="domain-condition", pkg="internal/domain_matcher", run="TestVerifC11",
+                files={"harness/C11/zz_verif_c11_test.go": "internal/domain_matcher/zz_verif_c11_test.go"},
+                params={"quick": {"MAXLEN": 2, "VARIANTS": 2}, "thorough": {"MAXLEN": 3, "VARIANTS": 2}})],
 )
 
 SPECS["C08"] = dict(
@@ -284,6 +296,8 @@ SPECS["C07"] = dict(
     assumptions=["ample cache capacity for the hit guarantee"],
     parts=[router_part("cache", "TestVerifC07", ["zz_verif_c07_test.go", "zz_verif_c08_test.go", "zz_verif_c03_test.go"],
                        params={"quick": {"MAXREC": 2, "MAXRANGES": 2}, "thorough": {"MAXREC": 3, "MAXRANGES": 3}}),
+           router_part("with-refresh", "TestVerifC19", ["zz_verif_c19_test.go", "zz_verif_c07_test.go", "zz_verif_c08_test.go", "zz_verif_c03_test.go"],
+                       params={"quick": {"DEPTH": 5, "FAULTS": 1, "SHARDDEPTH": 3}, "thorough": {"DEPTH": 6, "FAULTS": 2}}),
            dict(name="mem-e2", pkg="internal/cache", run="TestVerifC07Mem", go="go", engines=E2ENGINES,
                 files={"harness/cache/zz_verif_c07mem_test.go": "internal/cache/zz_verif_c07mem_test.go"},
                 generate=rewrite_imports("internal/cache/mem.go", {"sync": ("sync", "vsync"), "github.com/maypok86/otter": ("otter", "votter")}),
@@ -321,7 +335,8 @@ SPECS["C13"] = dict(
     rule="see evidence rule written by the harness",
     assumptions=["gnet delivers each TCP segment as one OnTraffic call and keeps unconsumed bytes buffered"],
     parts=[router_part("framing", "TestVerifC13", ["zz_verif_c13_test.go", "zz_verif_c03_test.go"],
-                       params={"quick": {"MAXK": 2, "COARSEK": 3, "FULLSEG": 0, "SHARDDEPTH": 4}, "thorough": {"MAXK": 2, "COARSEK": 4, "FULLSEG": 1, "SHARDDEPTH": 4}})],
+                       params={"quick": {"MAXK": 2, "COARSEK": 3, "FULLSEG": 0, "SHARDDEPTH": 4}, "thorough": {"MAXK": 2, "COARSEK": 4, "FULLSEG": 1, "SHARDDEPTH": 4}}),
+           router_part("response-size", "TestVerifC09Listeners", ["zz_verif_c09_test.go", "zz_verif_c03_test.go"], shards=4, params={"quick": {"SHARDDEPTH": 2}, "thorough": {"SHARDDEPTH": 2}})],
 )
 
 SPECS["C15"] = dict(
@@ -462,6 +477,10 @@ def _decoder_own():
 
 SPECS["C20"]["parts"] = _c20_parts() + [_mem_e2("C20"), _decoder_own()]
 SPECS["C04"]["parts"].append(_mem_e2("C04"))
+SPECS["C08"]["parts"].append(_mem_e2("C08"))
+SPECS["C08"]["parts"].append(dict(name="mem-lifetime", pkg="internal/cache", run="TestVerifC08Mem", go="go1.26", env=E3ENV, gomaxprocs=1, engines=("choice", "report"), shards=8,
+                                  files={"harness/cache/zz_verif_c08mem_test.go": "internal/cache/zz_verif_c08mem_test.go"},
+                                  params={"quick": {"DEPTH": 3}, "thorough": {"DEPTH": 5}}, budget={"quick": 60, "thorough": 900}))
 
 # --------------------------------------------------------------------------------------------
 # Properties not (yet) claimed. Kept current: every property without a SPECS entry must be here.
